@@ -501,38 +501,50 @@ Section XPadding.
     destruct (padding_values o (fst s)) as [l r]. one_placed Hp. unfold is_fixed. cbn [fst]. lia.
   Qed.
 
-  (* what fitting means when the Padding is rendered fixed *)
+  (* what fitting means when the Padding is rendered fixed: width 'pack' around a fixed widget, or a given width
+     around a flow widget that gets (width,) *)
   Lemma xpadding_fixed_inv s :
     is_fixed s = true -> n_fits nx s = true ->
     xpadding_values_fixed o xi = (pa_left o, pa_right o) /\ 0 <= pa_left o /\ 0 <= pa_right o /\
-    xpadding_csize_fixed o = fixed_size /\ x_fixed xi = true /\
-    fst (xpadding_pack o xi) = fst (x_pack xi) + pa_left o + pa_right o /\ snd (xpadding_pack o xi) = snd (x_pack xi).
+    xw xi (xpadding_csize_fixed o) + pa_left o + pa_right o <= fst (xpadding_pack o xi) /\
+    xh xi (xpadding_csize_fixed o) = snd (xpadding_pack o xi) /\
+    ((is_given (pa_wt o) = false /\ xpadding_csize_fixed o = fixed_size /\ x_fixed xi = true) \/
+     (is_given (pa_wt o) = true /\ xpadding_csize_fixed o = (pa_wamt o, None) /\ 1 <= pa_wamt o)).
   Proof.
     intros E Hf. unfold nx, xpadding_node in Hf. cbn [n_fits] in Hf. rewrite E in Hf.
     destruct (xpadding_values_fixed o xi) as [l r] eqn:Ev.
-    apply andb_true_iff in Hf as [Hf H7]. apply andb_true_iff in Hf as [Hf H6]. apply andb_true_iff in Hf as [Hf H5].
-    apply andb_true_iff in Hf as [Hf H4]. apply andb_true_iff in Hf as [Hf H3]. apply andb_true_iff in Hf as [H1 H2].
-    assert (Eg : is_given (pa_wt o) = false) by (destruct (pa_wt o); try discriminate; reflexivity).
-    unfold xpadding_values_fixed in Ev. rewrite H5 in Ev. rewrite clrp_exact in Ev by lia.
-    unfold xpadding_csize_fixed, xpadding_pack. rewrite Eg. cbn [fst snd].
-    repeat split; try lia; try assumption; try reflexivity. symmetry; exact Ev.
+    apply andb_true_iff in Hf as [Hf H5]. apply andb_true_iff in Hf as [Hf H4]. apply andb_true_iff in Hf as [Hf H3].
+    apply andb_true_iff in Hf as [H1 H2].
+    unfold xpadding_csize_fixed, xpadding_pack, xpadding_values_fixed in *.
+    destruct (is_given (pa_wt o)) eqn:Eg.
+    - assert (Ep : is_pack (pa_wt o) = false) by (destruct (pa_wt o); try discriminate; reflexivity).
+      assert (Egt : pa_wt o = GGiven) by (destruct (pa_wt o); try discriminate; reflexivity).
+      rewrite Ep, Egt in Ev. rewrite clrp_exact in Ev by lia.
+      unfold xw, xh, crows, is_fixed. cbn [fst snd]. assert (E1 : pa_wamt o <? 0 = false) by lia. rewrite E1.
+      split; [symmetry; exact Ev|]. split; [lia|]. split; [lia|]. split; [lia|]. split; [reflexivity|].
+      right. repeat split; try reflexivity; lia.
+    - apply andb_true_iff in H5 as [H5 H7]. apply andb_true_iff in H5 as [H5 H6].
+      rewrite H5 in Ev. rewrite clrp_exact in Ev by lia.
+      unfold xw, xh. rewrite is_fixed_fixed. cbn [fst snd].
+      split; [symmetry; exact Ev|]. split; [lia|]. split; [lia|]. split; [lia|]. split; [reflexivity|].
+      left. repeat split; try reflexivity; assumption.
   Qed.
 
   Lemma xpadding_within : XLocalWithin nx self kx.
   Proof.
     apply (tr_within nx nd self kx xpadding_like xpadding_keeps).
     - rewrite nd_is_old. apply padding_within.
-    - intros s p E Hf Hp _. destruct (xpadding_fixed_inv s E Hf) as [Ev [Hl [Hr [Ec [_ [Ew Eh]]]]]].
-      unfold nx, xpadding_node in Hp. cbn [n_place] in Hp. rewrite E, Ev, Ec in Hp. one_placed Hp.
-      unfold self, xw, xh. cbn [x_pack xpadding_info]. rewrite E, is_fixed_fixed. fold xi. rewrite Ew, Eh. lia.
+    - intros s p E Hf Hp _. destruct (xpadding_fixed_inv s E Hf) as [Ev [Hl [Hr [Ew [Eh _]]]]].
+      unfold nx, xpadding_node in Hp. cbn [n_place] in Hp. rewrite E, Ev in Hp. one_placed Hp.
+      unfold self. unfold xw at 2. unfold xh at 2. cbn [x_pack xpadding_info]. rewrite E. fold xi. lia.
   Qed.
 
   Lemma xpadding_mouse : XLocalMouse nx kx.
   Proof.
     apply (tr_mouse nx nd self kx xpadding_like xpadding_keeps).
     - rewrite nd_is_old. apply padding_mouse.
-    - intros s p col row focus E Hf Hp _ _ _. destruct (xpadding_fixed_inv s E Hf) as [Ev [Hl [Hr [Ec _]]]].
-      unfold nx, xpadding_node in *. cbn [n_place n_route] in *. rewrite E, Ev in *. rewrite Ec in Hp. one_placed Hp.
+    - intros s p col row focus E Hf Hp _ _ _. destruct (xpadding_fixed_inv s E Hf) as [Ev [Hl [Hr _]]].
+      unfold nx, xpadding_node in *. cbn [n_place n_route] in *. rewrite E, Ev in *. one_placed Hp.
       eexists. f_equal. f_equal; lia.
   Qed.
 
@@ -540,12 +552,12 @@ Section XPadding.
   Proof.
     apply (tr_move nx nd self kx xpadding_like xpadding_keeps eq_refl).
     - rewrite nd_is_old. apply padding_move_ok.
-    - intros s p col row E Hf Hp _ _ Hin _ _ Hm. destruct (xpadding_fixed_inv s E Hf) as [Ev [Hl [Hr [Ec [_ [Ew Eh]]]]]].
-      unfold nx, xpadding_node in *. cbn [n_place n_move] in *. rewrite E, Ev in *. rewrite Ec in Hp. one_placed Hp.
-      fold xi in Hm. rewrite Hm. cbn [negb]. rewrite Ew.
-      unfold in_rect, xw in Hin. rewrite is_fixed_fixed in Hin. fold xi in Hin.
+    - intros s p col row E Hf Hp _ _ Hin _ _ Hm. destruct (xpadding_fixed_inv s E Hf) as [Ev [Hl [Hr [Ew _]]]].
+      unfold nx, xpadding_node in *. cbn [n_place n_move] in *. rewrite E, Ev in *. one_placed Hp.
+      fold xi in Hm. rewrite Hm. cbn [negb].
+      unfold in_rect in Hin. fold xi in Hin.
       destruct (col <? pa_left o) eqn:E1; [lia|].
-      destruct (fst (x_pack xi) + pa_left o + pa_right o - pa_right o <=? col) eqn:E2; [lia|].
+      destruct (fst (xpadding_pack o xi) - pa_right o <=? col) eqn:E2; [lia|].
       eexists. f_equal; lia.
   Qed.
 
@@ -553,9 +565,9 @@ Section XPadding.
   Proof.
     apply (tr_cursor nx nd self kx xpadding_like xpadding_keeps).
     - rewrite nd_is_old. apply padding_cursor_ok.
-    - intros s E Hf. destruct (xpadding_fixed_inv s E Hf) as [Ev [Hl [Hr [Ec _]]]].
-      unfold nx, xpadding_node. cbn [n_place n_cursor]. rewrite E, Ev, Ec.
-      exists (Placed 0 (pa_left o) 0 fixed_size true false).
+    - intros s E Hf. destruct (xpadding_fixed_inv s E Hf) as [Ev [Hl [Hr _]]].
+      unfold nx, xpadding_node. cbn [n_place n_cursor]. rewrite E, Ev.
+      exists (Placed 0 (pa_left o) 0 (xpadding_csize_fixed o) true false).
       split; [left; reflexivity|]. split; [reflexivity|]. split.
       + intros q [<-|[]] _. reflexivity.
       + cbn [p_idx p_size p_x p_y]. fold xi. destruct (i_hascur (xc xi)) eqn:Eh; cbn [negb].
